@@ -61,7 +61,7 @@ G1_OPT = ["sensors lines", "BG nodes", "BG lines", "BG surfaces"]
 G2_OPT = ["constraints", "sensors sign", "sensors lines", "sensors surfaces", "BG nodes", "BG lines", "BG surfaces"]
 XYZ = ["x", "y", "z"]
 PART_CODE = {p: i for i, p in enumerate(
-    ["flat", "g1", "g1m", "g2map", "g2c", "g2opt", "g2sign", "g2m", "big12", "cor1", "cor2", "plot1", "plot2", "shipped"])}
+    ["flat", "g1", "g1m", "g2map", "g2c", "g2opt", "g2sign", "g2m", "big12", "cor1", "cor2", "plot1", "plot2", "shipped", "reuse"])}
 
 _PAY = {}
 
@@ -1266,9 +1266,64 @@ def judge_shipped(case, t):
 # ---------------------------------------------------------------------------------------------------------------
 # lattices: blocks = (part, args, number of cases); case_of decodes one lattice index into a case dict
 
+def _frames_snapshot(sheets):
+    return {k: v.copy(deep=True) for k, v in sheets.items() if isinstance(v, pd.DataFrame)}
+
+
+def _frames_changed(sheets, snap):
+    return [k for k, v in snap.items() if not (isinstance(sheets.get(k), pd.DataFrame) and sheets[k].equals(v))]
+
+
+def judge_reuse(case, t):
+    """The SAME table objects handed to a second definition (a second setup built from the same tables, or geometry 2 after
+    geometry 1 sharing the background tables): the second geometry must be as right as the first, and the caller's tables
+    must come back unchanged."""
+    seed, n, perm, route, geo = case["seed"], case["n"], case["perm"], case["route"], case["geo"]
+    flat = NAMES[:n]
+    t.states += 1
+    if geo == "geo1":
+        sheets, exp = geo1_sheets(seed, flat, perm, names_form("row", flat))
+        states = {k: 2 for k in G1_OPT}
+        calls = [lambda: call_geo1(route, sheets, states)[0], lambda: call_geo1(route, sheets, states)[0]]
+        errs = [lambda o: geo1_errors(o, exp, states)] * 2
+    else:
+        cells = (list(flat) + [0] * 3)[:3]           # one point, three direction cells: the sensors, then zeros
+        sheets, exp = geo2_sheets(seed, flat, 1, cells, names_form("row", flat))
+        states = {k: 2 for k in G2_OPT}
+        states["constraints"] = 0
+        phi = pay(seed)["PHI"][:n, 0]
+        expmap = ref_map_values(cells, flat, phi)
+        if case.get("after_geo1"):
+            # geometry 1 first, sharing the three background tables with geometry 2
+            s1, exp1 = geo1_sheets(seed, flat, perm, names_form("row", flat))
+            for k in ("BG nodes", "BG lines", "BG surfaces"):
+                s1[k] = sheets[k]
+            st1 = {k: 2 for k in G1_OPT}
+            calls = [lambda: call_geo1(route, s1, st1)[0], lambda: call_geo2(route, sheets, states)[0]]
+            errs = [lambda o: geo1_errors(o, exp1, st1), lambda o: geo2_errors(o, exp, states, phi, expmap)]
+        else:
+            calls = [lambda: call_geo2(route, sheets, states)[0], lambda: call_geo2(route, sheets, states)[0]]
+            errs = [lambda o: geo2_errors(o, exp, states, phi, expmap)] * 2
+    snap = _frames_snapshot(sheets)
+    ok = True
+    for k, (c, e) in enumerate(zip(calls, errs)):
+        r = c()
+        ok = judge_valid_result(t, r, dict(case, call=k + 1), geo if k else (case.get("after_geo1") and "geo1" or geo), route, "row", e,
+                                "reuse:second-definition-right" if k else "reuse:first-definition-right") and ok
+        if not ok:
+            break
+    changed = _frames_changed(sheets, snap)
+    if changed:
+        t.violation(f"reuse:caller-tables-modified:{geo}", f"{geo} via {route}: the caller's own tables {changed} were modified by the definition "
+                    f"(first rows now {[sheets[c].head(2).values.tolist() for c in changed][:2]}) | case {case}", case)
+    elif ok:
+        t.outcomes["reuse:caller-tables-unchanged"] += 1
+    return True
+
+
 JUDGES = {"flat": judge_flat, "g1": judge_g1, "g1m": judge_g1m, "g2map": judge_g2map, "g2c": judge_g2c, "g2opt": judge_g2opt,
           "g2sign": judge_g2sign, "g2m": judge_g2m, "big12": judge_big12, "cor1": judge_cor1, "cor2": judge_cor2,
-          "plot1": judge_plot1, "plot2": judge_plot2, "shipped": judge_shipped}
+          "plot1": judge_plot1, "plot2": judge_plot2, "shipped": judge_shipped, "reuse": judge_reuse}
 
 _LAYOUTS = {}
 
@@ -1443,6 +1498,13 @@ def explicit_cases(part, a, seed):
             for route in ("preger", "poser"):
                 out.append({"n": n, "P": P, "cells": cells, "sign": [0, 1] * 3 + [1] * (3 * P - 6) if P >= 2 else [0, 1, 0],
                             "cstr": 1, "mode": 2, "scale": 2.0, "color": "b", "route": route, "opt": 2, "chans": chans, "ref": ref})
+    elif part == "reuse":
+        for n in (2, 3):
+            for perm in perms(n):
+                for route in ("func", "single"):
+                    out.append({"n": n, "perm": list(perm), "route": route, "geo": "geo1"})
+                    out.append({"n": n, "perm": list(perm), "route": route, "geo": "geo2"})
+                    out.append({"n": n, "perm": list(perm), "route": route, "geo": "geo2", "after_geo1": 1})
     elif part == "shipped":
         for fi in range(len(SHIPPED)):
             for route in ("func", "file"):
@@ -1617,6 +1679,7 @@ def blocks(tier):
     B.append(("plot1", {"ns": [1, 2, 3] + ([4] if T else []), "scales": [1.0, 2.5] if T else [2.5], "multi": pm}))
     B.append(("plot2", {"sign_every": 1 if T else 2, "rot_step": 1 if T else 3, "multi": pm, "full_p1": 1 if T else 0}))
     B.append(("shipped", {}))
+    B.append(("reuse", {}))
     return B
 
 
@@ -1672,7 +1735,8 @@ def explore(ctx):
                 "cor:geo2:drop-required->ValueError", "cor:geo2:unknown-sheet->ValueError", "cor:geo2:cols->ValueError",
                 "cor:geo2:drop-row->ValueError", "cor:geo2:name-absent-from-mapping->ValueError",
                 "cor:geo2:constraint-unknown-sensor->ValueError", "cor:geo2:constraint-never-used->ValueError",
-                "cor:geo2:rename-index->ValueError", "shipped:accepted-and-aligned")
+                "cor:geo2:rename-index->ValueError", "shipped:accepted-and-aligned",
+                "reuse:second-definition-right", "reuse:caller-tables-unchanged")
 
 
 def replay(case):
